@@ -59,3 +59,32 @@ TYPES_PRELUDE = ['core_types.h']
 COSIM = False
 ASSUMPTIONS = ['only the guard prologues of AttributesDecoder::DecodeAttributesDecoderData and MeshEdgebreakerDecoderImpl::DecodeConnectivity are sliced (statement regions); '
                'the decoder object is reduced to the bitstream version and the buffer; what follows the guards in those functions is not under contract']
+
+# MeshEdgebreakerDecoderImpl::DecodeHoleAndTopologySplitEvents, whole function: side tables of split / hole events sized by counts from the stream
+INV_TS = ('__CPROVER_loop_invariant(i <= num_topology_splits && self->ts_size == (size_t)i && self->he_size == 0 && DB_INV(decoder_buffer) && '
+          'decoder_buffer->pos_ >= self->entry_pos && (size_t)(decoder_buffer->pos_ - self->entry_pos) >= self->ts_size + 1)')
+INV_HE = ('__CPROVER_loop_invariant(i <= num_hole_events && self->he_size == (size_t)i && DB_INV(decoder_buffer) && decoder_buffer->pos_ >= self->entry_pos && '
+          '(size_t)(decoder_buffer->pos_ - self->entry_pos) >= self->ts_size + self->he_size + 1)')
+functions.append(
+    {'name': 'EB_DecodeHoleAndTopologySplitEvents', 'file': EB,
+     'anchor': r'int32_t\s*MeshEdgebreakerDecoderImpl<TraversalDecoder>::DecodeHoleAndTopologySplitEvents\(\s*DecoderBuffer \*decoder_buffer\)\s*\{',
+     'sig': 'int32_t EB_DecodeHoleAndTopologySplitEvents(struct EvCtx *self, struct DecoderBuffer *decoder_buffer)',
+     'subst': [(r'decoder_->bitstream_version\(\)', 'self->bitstream_version', 0), (r'corner_table_->num_faces\(\)', 'self->ct_num_faces', 0),
+               (r'(?<!struct )\bTopologySplitEventData event_data;', 'struct TopologySplitEventData event_data;', 0), (r'(?<!struct )\bHoleEventData event_data;', 'struct HoleEventData event_data; event_data.symbol_id = 0;', 0),
+               (r'TopologySplitEventData &event_data = topology_split_data_\[((?:[^\[\]])+)\];\s*event_data\.source_edge = ((?:[^;])+);', r'ts_set_edge(self, \1, \2);', 0),
+               (r'decoder_buffer->Decode\(&event_data\)', 'DecoderBuffer_Decode_i32(decoder_buffer, &event_data.symbol_id)', 0), (r'decoder_buffer->Decode\(&edge_data\)', 'DecoderBuffer_Decode_u8(decoder_buffer, &edge_data)', 0),
+               (r'decoder_buffer->Decode\(&((?:event_data\.)?\w+)\)', r'DecoderBuffer_Decode_u32(decoder_buffer, &\1)', 0), (r'DecodeVarint(?:<uint32_t>)?\(&(\w+), decoder_buffer\)', r'DecodeVarint_u32(&\1, decoder_buffer)', 0),
+               (r'topology_split_data_\.push_back\(event_data\)', 'tsvec_push(self, decoder_buffer)', 0), (r'hole_event_data_\.push_back\(event_data\)', 'hevec_push(self, decoder_buffer)', 0),
+               (r'(?:topology_split_data_|hole_event_data_)\.(?:reserve|resize)\(', 'evvec_reserve(self, decoder_buffer, ', 0),
+               (r'decoder_buffer->StartBitDecoding\(false, nullptr\)', 'GB_Start(decoder_buffer)', 0), (r'decoder_buffer->DecodeLeastSignificantBits32\(', 'GB_Decode(decoder_buffer, ', 0), (r'decoder_buffer->EndBitDecoding\(\)', 'GB_End(decoder_buffer)', 0),
+               (r'decoder_buffer->decoded_size\(\)', 'decoder_buffer->pos_', 0)],
+     'loops': {0: '__CPROVER_assigns(i, self->ts_size, decoder_buffer->pos_)\n' + INV_TS + '\n__CPROVER_decreases(num_topology_splits - i)',
+               1: '__CPROVER_assigns(i, self->ts_size, last_source_symbol_id, decoder_buffer->pos_)\n' + INV_TS + '\n__CPROVER_decreases(num_topology_splits - i)',
+               2: '__CPROVER_assigns(i, ghost_gb_reads)\n__CPROVER_loop_invariant(i <= num_topology_splits && self->ts_size == (size_t)num_topology_splits && ghost_gb_mode == 1)\n__CPROVER_decreases(num_topology_splits - i)',
+               3: '__CPROVER_assigns(i, self->he_size, decoder_buffer->pos_)\n' + INV_HE + '\n__CPROVER_decreases(num_hole_events - i)',
+               4: '__CPROVER_assigns(i, self->he_size, last_symbol_id, decoder_buffer->pos_)\n' + INV_HE + '\n__CPROVER_decreases(num_hole_events - i)'}})
+UNIT['pre_text'].append('struct TopologySplitEventData { uint32_t split_symbol_id; uint32_t source_symbol_id; uint32_t source_edge : 1; };\nstruct HoleEventData { int32_t symbol_id; };\n'
+                        '/* the two event tables are counted, not stored: what matters here is how large they may grow */\n'
+                        'struct EvCtx { uint16_t bitstream_version; int ct_num_faces; size_t ts_size; size_t he_size; int64_t entry_pos; int64_t remaining_at_entry; };')
+J('Edgebreaker.events.contract', 'h_enf_EB_DecodeHoleAndTopologySplitEvents', ['C18', 'C02'], enforce='EB_DecodeHoleAndTopologySplitEvents', loops=True, cbmc=['--object-bits', '10'],
+  replace=['DecoderBuffer_Decode_u32', 'DecoderBuffer_Decode_i32', 'DecoderBuffer_Decode_u8', 'DecodeVarint_u32', 'tsvec_push', 'hevec_push', 'evvec_reserve', 'ts_set_edge', 'GB_Start', 'GB_Decode', 'GB_End'], timeout=900, cost=4)
